@@ -36,6 +36,8 @@ func coreMain(args []string) error {
 		return coreAST(m)
 	case "render":
 		return coreRender(m)
+	case "rerun":
+		return coreRerun(m)
 	}
 	return fmt.Errorf("core: unknown mode %s", args[0])
 }
@@ -177,17 +179,22 @@ func coreReplay(m map[string]string) error {
 	if err != nil {
 		return err
 	}
-	rnd := rand.New(rand.NewSource(Seed()))
 	randomLayouts := m["layouts"] == "random"
-	steps, loadFailures := 0, 0
-	for bi, raw := range lines {
+	diffs := make([]*replayDiff, len(lines))
+	stepCounts := make([]int, len(lines))
+	errs := make([]error, len(lines))
+	base := Seed()
+	parallelFor(len(lines), func(bi int) {
+		rnd := rand.New(rand.NewSource(base + int64(bi)*1000003))
 		var b behaviour
-		if err := json.Unmarshal(raw, &b); err != nil {
-			return err
+		if err := json.Unmarshal(lines[bi], &b); err != nil {
+			errs[bi] = err
+			return
 		}
 		c := byID[b.Case]
 		if c == nil {
-			return fmt.Errorf("behaviour %d refers to unknown case %d", bi, b.Case)
+			errs[bi] = fmt.Errorf("behaviour %d refers to unknown case %d", bi, b.Case)
+			return
 		}
 		l := canonicalLayout()
 		if randomLayouts {
@@ -196,15 +203,12 @@ func coreReplay(m map[string]string) error {
 		texts := renderCase(c, l)
 		h, err := newHost(c, texts)
 		if err != nil {
-			loadFailures++
-			if werr := w.Write(replayDiff{Case: c.ID, Beh: bi, Step: -1, Field: "load", Got: err.Error(), Layout: l.describe(), Texts: texts}); werr != nil {
-				return werr
-			}
-			continue
+			diffs[bi] = &replayDiff{Case: c.ID, Beh: bi, Step: -1, Field: "load", Got: err.Error(), Layout: l.describe(), Texts: texts}
+			return
 		}
 		waitingForChoice := false
 		for si, st := range b.Steps {
-			steps++
+			stepCounts[bi]++
 			if st.Ev == "hostset" {
 				h.hostSet(st.Var, st.Val)
 				continue
@@ -236,11 +240,24 @@ func coreReplay(m map[string]string) error {
 				field, exp, got = "visits", st.Visits, obs.Visits
 			}
 			if field != "" {
-				if err := w.Write(replayDiff{Case: c.ID, Beh: bi, Step: si, Field: field, Exp: exp, Got: got, Panic: obs.Panic,
-					Layout: l.describe(), Texts: texts}); err != nil {
-					return err
-				}
-				break
+				diffs[bi] = &replayDiff{Case: c.ID, Beh: bi, Step: si, Field: field, Exp: exp, Got: got, Panic: obs.Panic,
+					Layout: l.describe(), Texts: texts}
+				return
+			}
+		}
+	})
+	steps, loadFailures := 0, 0
+	for bi := range lines {
+		if errs[bi] != nil {
+			return errs[bi]
+		}
+		steps += stepCounts[bi]
+		if d := diffs[bi]; d != nil {
+			if d.Field == "load" {
+				loadFailures++
+			}
+			if err := w.Write(d); err != nil {
+				return err
 			}
 		}
 	}
